@@ -579,6 +579,55 @@ inject(const mut_t *m1, int v1, const mut_t *m2, int v2)
                         ;
         }
         baseline_after(mname, "burst");
+        /* ---- synchronous bursts: invalid job at position p of a 3-job burst (algorithm, direction and key size are call arguments
+         * there, so mutations of those descriptor fields do not make the job invalid for this entry point) ---- */
+        int sk = 0;
+        if (A->kind == AK_CIPHER && A->family == F_AES && (A->cm == IMB_CIPHER_CBC || A->cm == IMB_CIPHER_CNTR || A->cm == IMB_CIPHER_ECB || A->cm == IMB_CIPHER_CFB))
+                sk = 1;
+        if (A->kind == AK_HASH && ((A->family == F_HMAC && A->sub <= REF_SHA512) || A->family == F_SHA || A->family == F_CMAC))
+                sk = 2;
+        if (A->family == F_CCM)
+                sk = 3;
+        if (!sk || (m1->field >= 9 && m1->field <= 13))
+                return;
+        const char *an = sk == 1 ? "cipher-burst" : sk == 2 ? "hash-burst" : "aead-burst";
+        for (int p = 0; p < 3; p++) {
+                static IMB_JOB SJ[3];
+                int applied = 1;
+                for (int k = 0; k < 3; k++) {
+                        fill_bufs(k, nb);
+                        item_t bi;
+                        mkitem(&bi, k, base_len);
+                        alg_fill(m, &SJ[k], &bi);
+                        if (k == p) {
+                                item_t tmp = bi;
+                                applied = m1->apply(&SJ[k], &tmp, v1);
+                        }
+                        snap(k, nb);
+                }
+                if (!applied)
+                        return;
+                n_inj++;
+                IMB_CIPHER_DIRECTION d = g_dir ? IMB_DIR_ENCRYPT : IMB_DIR_DECRYPT;
+                uint32_t n = sk == 1   ? IMB_SUBMIT_CIPHER_BURST(m, SJ, 3, (IMB_CIPHER_MODE) A->cm, d, (IMB_KEY_SIZE_BYTES) A->klen)
+                             : sk == 2 ? IMB_SUBMIT_HASH_BURST(m, SJ, 3, (IMB_HASH_ALG) A->ha)
+                                       : IMB_SUBMIT_AEAD_BURST(m, SJ, 3, (IMB_CIPHER_MODE) A->cm, d, (IMB_KEY_SIZE_BYTES) A->klen);
+                e = imb_get_errno(m);
+                if (n == 3 || e == 0)
+                        viol("burst-with-invalid-job-accepted", mname, an, "synchronous burst containing an invalid job was not refused (x = position)", p);
+                else {
+                        if (SJ[p].status != IMB_STATUS_INVALID_ARGS)
+                                viol("burst-invalid-job-not-reported", mname, an, "invalid job of a synchronous burst not marked INVALID_ARGS (x = position)", p);
+                        if (!err_ok(m1, e))
+                                viol("wrong-error-code", mname, an, "manager error code does not name the violated constraint (x = code)", e);
+                }
+                for (int k = 0; k < 3; k++)
+                        if (!unchanged(k, nb))
+                                viol("burst-touched-buffer", mname, an, "a buffer of a refused synchronous burst was modified (x = job index)", k);
+                while (X_FLUSH(m))
+                        ;
+        }
+        baseline_after(mname, an);
 }
 
 /* values that are valid must be accepted and processed correctly */
